@@ -7,7 +7,7 @@
 From Coq Require Import List ZArith Bool Lia Arith.
 From RtoscV Require Import Ports.NameModel Ports.WalkModel Ports.WalkProofs Ports.EnumProofs
      Ports.DispatchModel Ports.TreeProofs Ports.DispatchWalk Ports.NamesModel Ports.NamesOk.
-From RtoscV Require Import Save.TopoModel Save.SaveModel Save.TreeApp Save.DispatchStage.
+From RtoscV Require Import Save.TopoModel Save.TopoEdges Save.SaveModel Save.TreeApp Save.DispatchStage.
 Import ListNotations.
 Local Open Scope Z_scope.
 
@@ -219,4 +219,288 @@ Proof.
           cbn [spec_pruned_port]. rewrite (expand_enumfree sg1 Ee). reflexivity. }
   specialize (Hloop l 0%nat [] Hl Hnm). cbn [app] in Hloop. apply Hloop.
   eapply Forall_impl; [|exact IHs]. intros q Hq. exact Hq.
+Qed.
+
+(* ======================================================================== *)
+(* the runtime oracle of the application's state, and what the walk reports    *)
+(* ======================================================================== *)
+(* the sub-tree ports under every expansion: address (with the trailing '/'), switch
+   of the pointer, 'enabled by' toggle (addresses) *)
+Definition dir_entry := (str * option str * option str)%type.
+
+Fixpoint dirs_pt (dir : str) (p : pt) {struct p} : list dir_entry :=
+  match p with
+  | PLeaf _ _ _ => []
+  | PSub nm enum ptr sw sub =>
+      flat_map (fun x =>
+        (dir ++ x, option_map (fun g => dir ++ g) ptr, option_map (fun g => dir ++ g) sw) ::
+        (fix go (l : list pt) : list dir_entry :=
+           match l with [] => [] | q :: r => dirs_pt (dir ++ x) q ++ go r end) sub)
+        (expand (sub_segs nm enum))
+  end.
+Fixpoint dirs_tbl (dir : str) (l : list pt) : list dir_entry :=
+  match l with [] => [] | q :: r => dirs_pt dir q ++ dirs_tbl dir r end.
+
+Definition dir_addr (d : dir_entry) : str := fst (fst d).
+Definition dir_find (ds : list dir_entry) (b : str) : option dir_entry :=
+  find (fun d => str_eqb (dir_addr d) b) ds.
+
+(* o_null b: the sub-tree at address b is a pointer whose switch is off (the object
+   does not exist); o_disabled b: its 'enabled by' toggle answers false *)
+Definition oracle_of (a : app) (ds : list dir_entry) (s : state) : oracle :=
+  {| o_null := fun b => match dir_find ds b with
+                        | Some (_, Some g, _) => negb (sw_on a s g)
+                        | _ => false
+                        end;
+     o_disabled := fun b => match dir_find ds b with
+                            | Some (_, _, Some g) => negb (sw_on a s g)
+                            | _ => false
+                            end;
+     o_selfoff := fun _ => false |}.
+
+Lemma dirs_pt_sub : forall dir nm enum ptr sw sub,
+  dirs_pt dir (PSub nm enum ptr sw sub) =
+  flat_map (fun x => (dir ++ x, option_map (fun g => dir ++ g) ptr, option_map (fun g => dir ++ g) sw)
+                     :: dirs_tbl (dir ++ x) sub) (expand (sub_segs nm enum)).
+Proof.
+  intros. cbn [dirs_pt]. apply flat_map_ext. intros x. f_equal.
+  induction sub as [|q r IH]; [reflexivity|]. cbn [dirs_tbl]. rewrite <- IH. reflexivity.
+Qed.
+
+Lemma dir_find_nodup : forall ds d, NoDup (map dir_addr ds) -> In d ds -> dir_find ds (dir_addr d) = Some d.
+Proof.
+  induction ds as [|e ds IH]; intros d Hnd Hin; [contradiction|].
+  inversion Hnd as [|? ? Hnot Hnd']; subst. unfold dir_find. cbn [find].
+  destruct (str_eqb (dir_addr e) (dir_addr d)) eqn:E.
+  - apply streqb_true in E. destruct Hin as [->|Hin]; [reflexivity|].
+    exfalso. apply Hnot. rewrite E. apply in_map. exact Hin.
+  - destruct Hin as [->|Hin]; [rewrite (proj2 (streqb_true _ _) eq_refl) in E; discriminate|].
+    apply IH; assumption.
+Qed.
+
+(* the switches above a port are among its own *)
+Lemma flat_pt_incl : forall p ids dir hard soft f,
+  In f (flat_pt ids dir hard soft p) -> incl hard (f_hard f) /\ incl soft (f_soft f).
+Proof.
+  induction p as [nm arr d|nm enum ptr sw sub IHs] using pt_ind2; intros ids dir hard soft f Hin.
+  - cbn [flat_pt] in Hin. destruct Hin as [<-|[]]. cbn. split; apply incl_refl.
+  - rewrite flat_pt_sub in Hin. apply in_flat_map in Hin. destruct Hin as (x & _ & Hin).
+    destruct (in_flat_tbl _ _ _ _ _ _ _ Hin) as (j & q & Eq & Hq).
+    rewrite Forall_forall in IHs. destruct (IHs q (nth_error_In _ _ Eq) _ _ _ _ _ Hq) as [H1 H2].
+    split; intros g Hg; [apply H1 | apply H2]; apply in_or_app; left; exact Hg.
+Qed.
+
+Definition live_f (a : app) (s : state) (f : fport) : bool :=
+  forallb (sw_on a s) (f_hard f) && forallb (sw_on a s) (f_soft f).
+
+Definition live_reports (a : app) (s : state) (f : fport) : list report :=
+  if live_f a s f then port_reports f else [].
+
+Lemma flat_map_ext_in' : forall A B (f g : A -> list B) l, (forall x, In x l -> f x = g x) -> flat_map f l = flat_map g l.
+Proof.
+  induction l as [|x l IH]; intros H; [reflexivity|]. cbn [flat_map].
+  rewrite (H x (or_introl eq_refl)), IH; [reflexivity|]. intros y Hy. apply H. right. exact Hy.
+Qed.
+
+Lemma flat_map_nil : forall A B (g : A -> list B) l, (forall x, In x l -> g x = []) -> flat_map g l = [].
+Proof.
+  induction l as [|x l IH]; intros H; [reflexivity|]. cbn [flat_map].
+  rewrite (H x (or_introl eq_refl)), IH; [reflexivity|]. intros y Hy. apply H. right. exact Hy.
+Qed.
+
+Section Pruned.
+  Variable a : app.
+  Variable s : state.
+  Variable ds : list dir_entry.
+  Hypothesis Hnd : NoDup (map dir_addr ds).
+  Let o := oracle_of a ds s.
+
+  Lemma pruned_dir : forall b ptr sw, In (b, ptr, sw) ds ->
+    pruned (Some o) b = negb (forallb (sw_on a s) (olist ptr)) || negb (forallb (sw_on a s) (olist sw)).
+  Proof.
+    intros b ptr sw Hin. unfold pruned, o, oracle_of. cbn [o_null o_disabled].
+    pose proof (dir_find_nodup ds (b, ptr, sw) Hnd Hin) as Hf. cbn [dir_addr fst] in Hf. rewrite Hf.
+    destruct ptr as [g|]; destruct sw as [g'|]; cbn [olist forallb]; rewrite ?andb_true_r; reflexivity.
+  Qed.
+
+  Lemma pruned_flat_pt : forall p ids dir hard soft,
+    incl (dirs_pt dir p) ds ->
+    forallb (sw_on a s) hard = true -> forallb (sw_on a s) soft = true ->
+    spec_pruned_port o ids dir (sport_of p) = flat_map (live_reports a s) (flat_pt ids dir hard soft p).
+  Proof.
+    induction p as [nm arr d|nm enum ptr sw sub IHs] using pt_ind2; intros ids dir hard soft Hds Hh Hs.
+    - cbn [flat_pt flat_map]. rewrite app_nil_r. unfold live_reports, live_f. cbn [f_hard f_soft].
+      rewrite Hh, Hs. cbn [andb]. rewrite <- (app_nil_r (port_reports _)).
+      change (port_reports {| f_id := ids; f_port := leaf_port (dir ++ nm) arr d;
+                              f_sel := option_map (fun x => dir ++ x) (ld_sel d); f_hard := hard; f_soft := soft |} ++ [])
+        with (flat_map port_reports (flat_pt ids dir hard soft (PLeaf nm arr d))).
+      rewrite <- spec_flat_pt. reflexivity.
+    - cbn [sport_of]. rewrite spec_pruned_subtree, flat_pt_sub, flat_map_flat_map.
+      rewrite dirs_pt_sub in Hds.
+      apply flat_map_ext_in'. intros x Hx.
+      assert (Hin : In (dir ++ x, option_map (fun g => dir ++ g) ptr, option_map (fun g => dir ++ g) sw) ds).
+      { apply Hds. apply in_flat_map. exists x. split; [exact Hx | left; reflexivity]. }
+      assert (Hsubds : incl (dirs_tbl (dir ++ x) sub) ds).
+      { intros e He. apply Hds. apply in_flat_map. exists x. split; [exact Hx | right; exact He]. }
+      rewrite (pruned_dir _ _ _ Hin).
+      set (hard' := hard ++ olist (option_map (fun g => dir ++ g) ptr)).
+      set (soft' := soft ++ olist (option_map (fun g => dir ++ g) sw)).
+      match goal with |- context [negb ?X || negb ?Y] => destruct X eqn:Ep; [destruct Y eqn:Es|] end; cbn [negb orb].
+      + (* visited *)
+        assert (Hh' : forallb (sw_on a s) hard' = true) by (unfold hard'; rewrite forallb_app, Hh; exact Ep).
+        assert (Hs' : forallb (sw_on a s) soft' = true) by (unfold soft'; rewrite forallb_app, Hs; exact Es).
+        clear Hin Hds. revert Hsubds. generalize 0%nat.
+        induction sub as [|q r IHr]; intros i Hsubds; [reflexivity|].
+        inversion IHs as [|? ? Hq Hr]; subst.
+        cbn [map spec_pruned_table flat_tbl]. rewrite flat_map_app.
+        rewrite <- (IHr Hr); [|intros e He; apply Hsubds; cbn [dirs_tbl]; apply in_or_app; right; exact He].
+        f_equal. apply Hq; try assumption.
+        intros e He. apply Hsubds. cbn [dirs_tbl]. apply in_or_app. left. exact He.
+      + (* 'enabled by' off: nothing below is live *)
+        symmetry. apply flat_map_nil. intros f Hf.
+        destruct (in_flat_tbl _ _ _ _ _ _ _ Hf) as (j & q & _ & Hq).
+        destruct (flat_pt_incl _ _ _ _ _ _ Hq) as [_ Hi].
+        unfold live_reports, live_f.
+        assert (E : forallb (sw_on a s) (f_soft f) = false).
+        { destruct (forallb (sw_on a s) (f_soft f)) eqn:E; [|reflexivity].
+          rewrite forallb_forall in E. exfalso.
+          assert (Es' : forallb (sw_on a s) (olist (option_map (fun g => dir ++ g) sw)) = true).
+          { apply forallb_forall. intros g Hg. apply E. apply Hi. apply in_or_app. right. exact Hg. }
+          assert (Hc : true = false) by exact (eq_trans (eq_sym Es') Es). discriminate. }
+        rewrite E, andb_false_r. reflexivity.
+      + (* the pointer is NULL *)
+        symmetry. apply flat_map_nil. intros f Hf.
+        destruct (in_flat_tbl _ _ _ _ _ _ _ Hf) as (j & q & _ & Hq).
+        destruct (flat_pt_incl _ _ _ _ _ _ Hq) as [Hi _].
+        unfold live_reports, live_f.
+        assert (E : forallb (sw_on a s) (f_hard f) = false).
+        { destruct (forallb (sw_on a s) (f_hard f)) eqn:E; [|reflexivity].
+          rewrite forallb_forall in E. exfalso.
+          assert (Ep' : forallb (sw_on a s) (olist (option_map (fun g => dir ++ g) ptr)) = true).
+          { apply forallb_forall. intros g Hg. apply E. apply Hi. apply in_or_app. right. exact Hg. }
+          assert (Hc : true = false) by exact (eq_trans (eq_sym Ep') Ep). discriminate. }
+        rewrite E. reflexivity.
+  Qed.
+
+  Lemma pruned_flat_tbl : forall l ids dir hard soft i,
+    incl (dirs_tbl dir l) ds ->
+    forallb (sw_on a s) hard = true -> forallb (sw_on a s) soft = true ->
+    spec_pruned_table o ids dir (map sport_of l) i = flat_map (live_reports a s) (flat_tbl ids dir hard soft l i).
+  Proof.
+    induction l as [|q r IH]; intros ids dir hard soft i Hds Hh Hs; [reflexivity|].
+    cbn [map spec_pruned_table flat_tbl]. rewrite flat_map_app.
+    rewrite <- IH; try assumption; [|intros e He; apply Hds; cbn [dirs_tbl]; apply in_or_app; right; exact He].
+    f_equal. apply pruned_flat_pt; try assumption.
+    intros e He. apply Hds. cbn [dirs_tbl]. apply in_or_app. left. exact He.
+  Qed.
+End Pruned.
+
+Definition dirs_root (t : list pt) : list dir_entry := dirs_tbl [47] t.
+
+Lemma nometa_sport_of : forall p, nometa (sport_of p).
+Proof.
+  induction p as [nm arr d|nm enum ptr sw sub IHs] using pt_ind2; cbn [sport_of nometa]; split; try reflexivity; try exact I.
+  induction sub as [|q r IH]; [exact I|]. inversion IHs; subst. cbn [map]. split; [assumption | apply IH; assumption].
+Qed.
+
+(* C12_walk_live_reports: walk_ports with the runtime object of state [st] calls the
+   walker with the element addresses of exactly the live ports of app_of_tree, in the
+   application's order *)
+Theorem walk_live_reports : forall t st,
+  names_ok (sports_of t) = true -> NoDup (map dir_addr (dirs_root t)) ->
+  walk (Some (oracle_of (app_of_tree t) (dirs_root t) st)) (map render_port (sports_of t)) [] =
+  WOk (flat_map (live_reports (app_of_tree t) st) (flat_root t)) [47].
+Proof.
+  intros t st Hn Hnd. destruct (names_ok_sound _ Hn) as (Hwf & _).
+  unfold walk. rewrite walk_port_empty_buf.
+  change (Port [] None (Some (map render_port (sports_of t))))
+    with (render_port (SPort [] [] None (Some (sports_of t)))).
+  rewrite (walk_pruned_wf (oracle_of (app_of_tree t) (dirs_root t) st) (fun _ => eq_refl) _ [] [47] [] [] None (sports_of t) eq_refl Hwf);
+    [| apply Forall_forall; intros q Hq; unfold sports_of in Hq; apply in_map_iff in Hq;
+       destruct Hq as (p & <- & _); apply nometa_sport_of | discriminate].
+  f_equal. unfold sports_of, flat_root.
+  apply (pruned_flat_tbl _ st _ Hnd); [apply incl_refl | reflexivity | reflexivity].
+Qed.
+
+Lemma live_f_live : forall t st i f, nth_error (flat_root t) i = Some f ->
+  live_f (app_of_tree t) st f = live (app_of_tree t) st i.
+Proof.
+  intros t st i f Ef. unfold live_f, live, exists_, all_on. rewrite (port_at_app t i f Ef).
+  unfold resolve. cbn [p_hard p_soft]. rewrite !forallb_map'. unfold sw_on.
+  rewrite <- (paths_app t). reflexivity.
+Qed.
+
+(* the ports the walker was called for: those whose (first element's) address it was given *)
+Definition reported (out : list report) (addr : str) : bool := existsb (fun r => str_eqb (snd r) addr) out.
+Definition walk_tree (t : list pt) (st : state) : list nat :=
+  let a := app_of_tree t in
+  match walk (Some (oracle_of a (dirs_root t) st)) (map render_port (sports_of t)) [] with
+  | WOk out _ => filter (fun i => reported out (elem_addr (port_at a i) 0)) (seq 0 (length a))
+  | WFail => []
+  end.
+
+Lemma nodup_flat_map_idx : forall A B (g : A -> list B) l i j x y v,
+  NoDup (flat_map g l) -> nth_error l i = Some x -> nth_error l j = Some y ->
+  In v (g x) -> In v (g y) -> i = j.
+Proof.
+  induction l as [|h l IH]; intros i j x y v Hnd Ei Ej Hx Hy; [destruct i; discriminate|].
+  cbn [flat_map] in Hnd.
+  assert (Hsplit : NoDup (g h) /\ NoDup (flat_map g l) /\ forall z, In z (g h) -> ~ In z (flat_map g l)).
+  { clear - Hnd. induction (g h) as [|z zs IHz]; cbn [app] in Hnd.
+    - split; [constructor|]. split; [exact Hnd|]. intros z [].
+    - inversion Hnd as [|? ? Hnot Hnd']; subst. destruct (IHz Hnd') as (H1 & H2 & H3).
+      split; [constructor; [intro Hc; apply Hnot; apply in_or_app; left; exact Hc | exact H1]|].
+      split; [exact H2|]. intros w [<-|Hw]; [intro Hc; apply Hnot; apply in_or_app; right; exact Hc | apply H3; exact Hw]. }
+  destruct Hsplit as (_ & Hnd2 & Hdis).
+  destruct i as [|i]; destruct j as [|j]; cbn in Ei, Ej.
+  - reflexivity.
+  - inversion Ei; subst. exfalso. apply (Hdis v Hx). apply in_flat_map. exists y. split; [eapply nth_error_In; exact Ej | exact Hy].
+  - inversion Ej; subst. exfalso. apply (Hdis v Hy). apply in_flat_map. exists x. split; [eapply nth_error_In; exact Ei | exact Hx].
+  - f_equal. eapply IH; eassumption.
+Qed.
+
+Lemma elem_addr_resolve : forall ps f k, elem_addr (resolve ps f) k = elem_addr (f_port f) k.
+Proof. reflexivity. Qed.
+
+(* C12_walk_stage: the ports the walk reaches with the runtime object of [st] are the
+   live ports of the application, in order - the former premise "C09" *)
+Theorem walk_stage : forall t st,
+  let a := app_of_tree t in
+  names_ok (sports_of t) = true -> NoDup (map dir_addr (dirs_root t)) ->
+  NoDup (app_addresses a) -> (forall i, (i < length a)%nat -> (0 < p_len (port_at a i))%nat) ->
+  walk_tree t st = filter (live a st) (seq 0 (length a)).
+Proof.
+  intros t st a Hn Hnd Haddr Hlen. unfold a in *. clear a. unfold walk_tree.
+  rewrite (walk_live_reports t st Hn Hnd).
+  apply filter_ext_in. intros i Hi. apply in_seq in Hi. destruct Hi as [_ Hi]. cbn [Nat.add] in Hi.
+  destruct (nth_error (flat_root t) i) as [f|] eqn:Ef.
+  2:{ apply nth_error_None in Ef. unfold app_of_tree in Hi. rewrite map_length in Hi. lia. }
+  rewrite <- (live_f_live t st i f Ef).
+  assert (Hpi : port_at (app_of_tree t) i = resolve (fpaths (flat_root t)) f) by (apply port_at_app; exact Ef).
+  destruct (live_f (app_of_tree t) st f) eqn:El.
+  - (* live: its first element is reported *)
+    unfold reported. apply existsb_exists. exists (f_id f, elem_addr (f_port f) 0). split.
+    + apply in_flat_map. exists f. split; [eapply nth_error_In; exact Ef|].
+      unfold live_reports. rewrite El. unfold port_reports.
+      apply in_map_iff. exists 0%nat. split; [reflexivity|]. apply in_seq.
+      specialize (Hlen i Hi). rewrite Hpi in Hlen. cbn [resolve p_len] in Hlen. lia.
+    + cbn [snd]. rewrite Hpi, elem_addr_resolve. apply streqb_true. reflexivity.
+  - (* not live: no report carries one of its addresses *)
+    destruct (reported _ _) eqn:Er; [|reflexivity]. exfalso.
+    unfold reported in Er. apply existsb_exists in Er. destruct Er as (r & Hr & Hs).
+    apply streqb_true in Hs. apply in_flat_map in Hr. destruct Hr as (f' & Hf' & Hr).
+    unfold live_reports in Hr. destruct (live_f (app_of_tree t) st f') eqn:El'; [|contradiction].
+    unfold port_reports in Hr. apply in_map_iff in Hr. destruct Hr as (k & <- & Hk). cbn [snd] in Hs.
+    apply in_seq in Hk. destruct (In_nth_error _ _ Hf') as [j Ej].
+    assert (Hij : j = i).
+    { assert (Eai : nth_error (app_of_tree t) i = Some (resolve (fpaths (flat_root t)) f))
+        by (unfold app_of_tree; rewrite nth_error_map, Ef; reflexivity).
+      assert (Eaj : nth_error (app_of_tree t) j = Some (resolve (fpaths (flat_root t)) f'))
+        by (unfold app_of_tree; rewrite nth_error_map, Ej; reflexivity).
+      apply (nodup_flat_map_idx _ _ (fun p => map (elem_addr p) (seq 0 (p_len p))) (app_of_tree t) j i _ _
+               (elem_addr (f_port f') k) Haddr Eaj Eai).
+      - apply in_map_iff. exists k. split; [reflexivity|]. apply in_seq. cbn [resolve p_len]. lia.
+      - rewrite Hs, Hpi. apply in_map_iff. exists 0%nat. split; [reflexivity|]. apply in_seq.
+        specialize (Hlen i Hi). rewrite Hpi in Hlen. lia. }
+    subst j. rewrite Ef in Ej. inversion Ej; subst f'. congruence.
 Qed.
